@@ -271,7 +271,7 @@ impl Font {
     }
     pub fn widths(&self, resolve: &impl Resolve) -> Result<Option<Widths>> {
         match self.data {
-            FontData::Type0(ref t0) => t0.descendant_fonts[0].widths(resolve),
+            FontData::Type0(ref t0) => try_opt!(t0.descendant_fonts.get(0)).widths(resolve),
             FontData::Type1(ref info) | FontData::TrueType(ref info) => {
                 match *info {
                     TFont { first_char: Some(first), ref widths, .. } => Ok(Some(Widths {
@@ -289,7 +289,7 @@ impl Font {
                     let c1 = p.as_usize()?;
                     match iter.next() {
                         Some(Primitive::Array(array)) => {
-                            widths.ensure_cid(c1 + array.len() - 1);
+                            widths.ensure_cid((c1 + array.len()).saturating_sub(1));
                             for (i, w) in array.iter().enumerate() {
                                 widths.set(c1 + i, w.as_number()?);
                             }
@@ -297,7 +297,7 @@ impl Font {
                         Some(&Primitive::Reference(r)) => {
                             match resolve.resolve(r)? {
                                 Primitive::Array(array) => {
-                                    widths.ensure_cid(c1 + array.len() - 1);
+                                    widths.ensure_cid((c1 + array.len()).saturating_sub(1));
                                     for (i, w) in array.iter().enumerate() {
                                         widths.set(c1 + i, w.as_number()?);
                                     }
@@ -307,6 +307,9 @@ impl Font {
                         }
                         Some(&Primitive::Integer(c2)) => {
                             let w = try_opt!(iter.next()).as_number()?;
+                            if c2 < 0 {
+                                bail!("negative CID in W array");
+                            }
                             for c in c1 ..= (c2 as usize) {
                                 widths.set(c, w);
                             }
